@@ -387,9 +387,15 @@ def subterms(ast):
     raise ValueError(ast)
 
 
+_REFLECT = {"<": ">", ">": "<", "<=": ">=", ">=": "<="}
+
+
 def canon_ast(ast):
-    """hashable canonical form of an AST"""
+    """hashable canonical form of an AST; a comparison with a literal on the left is written the way Python builds it
+    (literal < ref  ->  ref.__gt__(literal)), so that a model term and a term read back from xdeps agree"""
     if isinstance(ast, list):
+        if len(ast) == 4 and ast[0] == "bin" and ast[1] in _REFLECT and not has_ref(ast[2]) and has_ref(ast[3]):
+            ast = ["bin", _REFLECT[ast[1]], ast[3], ast[2]]
         return tuple(canon_ast(x) for x in ast)
     return ast
 
